@@ -1,1 +1,243 @@
 //! Verification facade: `wal` (feature `verif`).
+//!
+//! Thin wrappers over the crate-private write-ahead log (`io::wal::WriteAheadLog`, `storage::wal`):
+//! create / open / append / force / truncate / read everything back with a chosen read-ahead, the
+//! byte image of one record, and the constants the log is built from, evaluated from the code's own
+//! definitions.
+
+use crate::{
+    io::{disk::FileOperations, wal::WriteAheadLog},
+    storage::{
+        AvailableSpace, Allocatable, Writable,
+        wal::{
+            BLOCK_HEADER_SIZE, BlockZero, BlockZeroHeader, OwnedRecord, RECORD_HEADER_SIZE,
+            RecordHeader, RecordRef, RecordType, WAL_BLOCK_SIZE, WAL_HEADER_SIZE, WAL_RECORD_ALIGNMENT, WalBlock,
+        },
+    },
+};
+use std::{
+    io::{self, Write},
+    mem,
+    path::Path,
+    ptr::NonNull,
+};
+
+/// A log record with every field of the on-disk header spelled out.
+#[derive(Debug, Clone, PartialEq, Eq)]
+pub struct Rec {
+    pub lsn: u64,
+    pub tid: u64,
+    pub prev_lsn: Option<u64>,
+    pub object_id: Option<u64>,
+    pub row_id: Option<u64>,
+    /// discriminant of `RecordType`
+    pub kind: u8,
+    pub undo: Vec<u8>,
+    pub redo: Vec<u8>,
+    /// header + payload + padding as stored
+    pub total_size: usize,
+}
+
+pub fn record_type_of(kind: u8) -> Option<RecordType> {
+    Some(match kind {
+        0x00 => RecordType::Begin,
+        0x01 => RecordType::Commit,
+        0x02 => RecordType::Abort,
+        0x03 => RecordType::End,
+        0x06 => RecordType::Update,
+        0x07 => RecordType::Delete,
+        0x08 => RecordType::Insert,
+        0x09 => RecordType::Create,
+        0x0A => RecordType::Drop,
+        0x0B => RecordType::Alter,
+        _ => return None,
+    })
+}
+
+fn to_owned_record(r: &Rec) -> Option<OwnedRecord> {
+    Some(OwnedRecord::new(
+        r.lsn,
+        r.tid,
+        r.prev_lsn,
+        r.object_id,
+        r.row_id,
+        record_type_of(r.kind)?,
+        &r.undo,
+        &r.redo,
+    ))
+}
+
+fn of_ref(r: &RecordRef<'_>) -> Rec {
+    Rec {
+        lsn: r.lsn(),
+        tid: r.tid(),
+        prev_lsn: r.metadata().prev_lsn,
+        object_id: r.metadata().object_id,
+        row_id: r.metadata().row_id,
+        kind: r.log_type() as u8,
+        undo: r.undo_payload().to_vec(),
+        redo: r.redo_payload().to_vec(),
+        total_size: r.total_size(),
+    }
+}
+
+/// Bookkeeping as `WriteAheadLog::stats` reports it.
+#[derive(Debug, Clone, Copy, PartialEq, Eq)]
+pub struct Stats {
+    pub start_lsn: u64,
+    pub last_lsn: u64,
+    pub total_blocks: u64,
+    pub total_entries: u32,
+    pub pending_blocks: usize,
+    pub block_size: usize,
+}
+
+/// The real `WriteAheadLog` on a file. Dropping it runs the log's own `Drop` (which forces).
+pub struct Wal {
+    inner: WriteAheadLog,
+}
+
+impl Wal {
+    pub fn create(path: impl AsRef<Path>) -> io::Result<Self> {
+        Ok(Self { inner: WriteAheadLog::create(path)? })
+    }
+
+    pub fn open(path: impl AsRef<Path>) -> io::Result<Self> {
+        Ok(Self { inner: WriteAheadLog::open(path)? })
+    }
+
+    /// `WriteAheadLog::last_lsn` — what `Pager::push_to_log` derives the next LSN from.
+    pub fn last_lsn(&self) -> Option<u64> {
+        self.inner.last_lsn()
+    }
+
+    pub fn max_record_size(&self) -> usize {
+        self.inner.max_record_size()
+    }
+
+    /// `WriteAheadLog::push` of a record carrying exactly the given fields (the LSN included).
+    /// `None` if `kind` is not a `RecordType` discriminant.
+    pub fn push(&mut self, r: &Rec) -> Option<io::Result<()>> {
+        Some(self.inner.push(to_owned_record(r)?))
+    }
+
+    /// The LSN assignment of `Pager::push_to_log` followed by `push`: returns the LSN used.
+    pub fn append(&mut self, r: &Rec) -> Option<io::Result<u64>> {
+        let lsn = self.inner.last_lsn().map(|l| l + 1).unwrap_or(0);
+        let mut r = r.clone();
+        r.lsn = lsn;
+        Some(self.inner.push(to_owned_record(&r)?).map(|_| lsn))
+    }
+
+    /// Force: `Write::flush` = `perform_flush` (writes + fsync).
+    pub fn flush(&mut self) -> io::Result<()> {
+        self.inner.flush()
+    }
+
+    pub fn truncate(&mut self) -> io::Result<()> {
+        self.inner.truncate()
+    }
+
+    pub fn stats(&self) -> Stats {
+        let s = self.inner.stats();
+        Stats {
+            start_lsn: s.start_lsn,
+            last_lsn: s.last_lsn,
+            total_blocks: s.total_blocks,
+            total_entries: s.total_entries,
+            pending_blocks: s.pending_blocks,
+            block_size: s.block_size,
+        }
+    }
+
+    /// Everything `WalReader::next_ref` yields, with a read-ahead of `read_ahead_blocks` blocks.
+    pub fn read_all(&mut self, read_ahead_blocks: usize) -> io::Result<Vec<Rec>> {
+        let mut reader = self.inner.reader(read_ahead_blocks)?;
+        let mut out = Vec::new();
+        while let Some(r) = reader.next_ref()? {
+            out.push(of_ref(&r));
+        }
+        Ok(out)
+    }
+}
+
+/// Constants of the log, evaluated from the code.
+#[derive(Debug, Clone, Copy)]
+pub struct Constants {
+    /// `WAL_BLOCK_SIZE` (before rounding up to the file system block size)
+    pub wal_block_size: usize,
+    pub block_header_size: usize,
+    pub wal_header_size: usize,
+    pub zero_header_size: usize,
+    pub record_header_size: usize,
+    pub record_alignment: usize,
+    /// `WalBlock::usable_space(block_size)` = `max_record_size`
+    pub max_record_size: usize,
+    /// `available_space()` of a freshly allocated block zero
+    pub fresh_zero_available: usize,
+    /// `available_space()` of a freshly allocated numbered block
+    pub fresh_block_available: usize,
+    /// `total_blocks` of a freshly allocated header
+    pub fresh_total_blocks: u64,
+    /// `OwnedRecord::compute_padded_size(n)` for n = 0..16
+    pub padded_sizes: [usize; 16],
+}
+
+/// `block_size` = the block size the log actually uses on this file system (see `Stats::block_size`).
+pub fn constants(block_size: usize) -> Constants {
+    let zero = BlockZero::alloc(0, block_size);
+    let blk = WalBlock::alloc(1, block_size);
+    let mut padded_sizes = [0usize; 16];
+    for (n, p) in padded_sizes.iter_mut().enumerate() {
+        *p = OwnedRecord::compute_padded_size(n);
+    }
+    Constants {
+        wal_block_size: WAL_BLOCK_SIZE,
+        block_header_size: BLOCK_HEADER_SIZE,
+        wal_header_size: WAL_HEADER_SIZE,
+        zero_header_size: mem::size_of::<BlockZeroHeader>(),
+        record_header_size: RECORD_HEADER_SIZE,
+        record_alignment: WAL_RECORD_ALIGNMENT,
+        max_record_size: WalBlock::usable_space(block_size),
+        fresh_zero_available: zero.available_space(),
+        fresh_block_available: blk.available_space(),
+        fresh_total_blocks: zero.metadata().wal_header.total_blocks,
+        padded_sizes,
+    }
+}
+
+/// The bytes `push` copies into a block for this record (header, payload, padding).
+pub fn encode_record(r: &Rec) -> Option<Vec<u8>> {
+    let rec = to_owned_record(r)?;
+    let mut buf = vec![0u8; rec.total_size()];
+    rec.write_to(&mut buf);
+    Some(buf)
+}
+
+/// Reads a record the way the reader does (`RecordRef::from_raw`) from the front of `bytes`.
+/// The caller must pass bytes that start with a well-formed record image: the reader itself
+/// performs no validation.
+pub fn decode_record(bytes: &[u8]) -> Option<Rec> {
+    if bytes.len() < RECORD_HEADER_SIZE {
+        return None;
+    }
+    // aligned copy: records inside blocks are 8-aligned
+    let mut buf = vec![0u64; bytes.len().div_ceil(8)];
+    let dst = unsafe { std::slice::from_raw_parts_mut(buf.as_mut_ptr() as *mut u8, bytes.len()) };
+    dst.copy_from_slice(bytes);
+    let o_total = mem::offset_of!(RecordHeader, total_size);
+    let o_type = mem::offset_of!(RecordHeader, log_type);
+    let total = u32::from_le_bytes(bytes[o_total..o_total + 4].try_into().ok()?) as usize;
+    if total < RECORD_HEADER_SIZE || total > bytes.len() {
+        return None;
+    }
+    if record_type_of(bytes[o_type]).is_none() {
+        return None;
+    }
+    let ptr = NonNull::new(buf.as_mut_ptr())?.cast();
+    let r = RecordRef::from_raw(ptr);
+    if r.metadata().undo_len as usize + r.metadata().redo_len as usize > total - RECORD_HEADER_SIZE {
+        return None;
+    }
+    Some(of_ref(&r))
+}
